@@ -19,7 +19,20 @@ import time
 ROOT = os.path.dirname(os.path.dirname(os.path.abspath(__file__)))
 REPO = os.environ.get("VERIF_REPO", "/repo")
 BUILD = os.environ.get("VERIF_BUILD", os.path.join(ROOT, ".build"))
-LEAN = os.path.join(ROOT, "lean")
+LEAN_SRC = os.path.join(ROOT, "lean")
+# Checks against a scratch tree (VERIF_REPO != /repo) regenerate the extracted tables from that tree;
+# they work in a private copy of the Lean project so that the shared one always reflects /repo.
+LEAN = LEAN_SRC if os.path.realpath(REPO) == "/repo" else os.path.join(BUILD, "lean-" + hashlib.sha256(os.path.realpath(REPO).encode()).hexdigest()[:10])
+
+
+def sync_private_lean():
+    if LEAN == LEAN_SRC:
+        return
+    with Lock("leansync-" + os.path.basename(LEAN)):
+        if not os.path.isdir(LEAN):
+            subprocess.run(["cp", "-r", LEAN_SRC, LEAN])
+        subprocess.run(["rsync", "-a", "--delete", "--exclude", ".lake", "--exclude", "DeltaModel/Generated",
+                        "--exclude", "Audit", LEAN_SRC + "/", LEAN + "/"])
 GUARD = "dandavison_delta_verif"
 RUSTFLAGS = f"--cfg {GUARD} --check-cfg cfg({GUARD}) -Awarnings"
 ALLOWED_AXIOMS = {"propext", "Classical.choice", "Quot.sound"}
@@ -155,20 +168,33 @@ def axiom_audit(prop):
 FORBIDDEN = re.compile(r"\b(sorry|admit|native_decide|bv_decide|implemented_by|unsafe)\b|^\s*axiom\s|maxHeartbeats\s+0\b", re.M)
 
 
-def source_audit():
-    """Forbidden constructs in the hand-written Lean sources (comments removed)."""
+def import_closure(prop):
+    """Project-local modules reachable from Props/<prop>.lean through `import` lines."""
+    seen, todo = set(), ["Props." + prop]
+    while todo:
+        mod = todo.pop()
+        if mod in seen:
+            continue
+        path = os.path.join(LEAN, *mod.split(".")) + ".lean"
+        if not os.path.exists(path):
+            continue
+        seen.add(mod)
+        for m in re.finditer(r"^\s*(?:public\s+)?import\s+([\w.]+)", open(path).read(), flags=re.M):
+            if m.group(1).split(".")[0] in ("DeltaModel", "Proofs", "Props"):
+                todo.append(m.group(1))
+    return sorted(seen)
+
+
+def source_audit(prop):
+    """Forbidden constructs in the Lean sources the property's theorems depend on (comments removed)."""
     hits = []
-    for sub in ("DeltaModel", "Proofs", "Props"):
-        for dp, _, fs in os.walk(os.path.join(LEAN, sub)):
-            for f in fs:
-                if not f.endswith(".lean"):
-                    continue
-                p = os.path.join(dp, f)
-                src = open(p).read()
-                src = re.sub(r"/-.*?-/", lambda m: "\n" * m.group(0).count("\n"), src, flags=re.S)
-                src = re.sub(r"--.*", "", src)
-                for m in FORBIDDEN.finditer(src):
-                    hits.append(f"{os.path.relpath(p, LEAN)}:{src.count(chr(10), 0, m.start()) + 1}:{m.group(0).strip()}")
+    for mod in import_closure(prop):
+        p = os.path.join(LEAN, *mod.split(".")) + ".lean"
+        src = open(p).read()
+        src = re.sub(r"/-.*?-/", lambda m: "\n" * m.group(0).count("\n"), src, flags=re.S)
+        src = re.sub(r"--.*", "", src)
+        for m in FORBIDDEN.finditer(src):
+            hits.append(f"{os.path.relpath(p, LEAN)}:{src.count(chr(10), 0, m.start()) + 1}:{m.group(0).strip()}")
     return hits
 
 
@@ -437,6 +463,7 @@ def main(argv):
         print(f"[{prop}] ERROR: {REPO} does not build with the hooks on; nothing checked")
         return 2
 
+    sync_private_lean()
     # 2. translator: regenerate the extracted tables
     ok, xlog, rep.generated_hashes = run_extract(getattr(mod, "GENERATED", ()))
     rep.generated_hashes = {k: v for k, v in rep.generated_hashes.items()
@@ -459,7 +486,8 @@ def main(argv):
                 rep.discharged.append(n)
             else:
                 rep.broken_proofs.append(f"{n}: axioms {ax.get(n, 'not reported')}")
-        hits = source_audit()
+        hits = source_audit(prop)
+        rep.notes["audited_modules"] = import_closure(prop)
         if hits:
             rep.broken_proofs.append("forbidden constructs: " + ", ".join(hits[:10]))
             rep.discharged = []
